@@ -266,6 +266,18 @@ static void run_sizes(void)
             }
             mon_end();
         }
+        /* lengths far beyond anything that gets encoded here: 2^21..2^30 +-1, random ones between 2^29 and the largest
+         * whose aligned size still fits the int the queries return, and that largest length itself (queries only) */
+        if (mon_case("%s|large-lengths", ck)) {
+            /* a length is asked about only if the answer (payload + backend metadata) fits the int the query returns */
+#define FITS(len) ((((len) + A - 1) / A * A) / (uint64_t)c.k + ref_backend_metadata_bytes(c.be, (((len) + A - 1) / A * A) / (uint64_t)c.k) <= 0x7fffffffull)
+            for (int p2 = 21; p2 <= 30; p2++) for (int64_t dlt = -1; dlt <= 1; dlt++) { if (!FITS((1ull << p2) + (uint64_t)dlt)) continue; check_sizes(&c, ck, desc, (1ull << p2) + (uint64_t)dlt, 0); mon_distinct("nontrivial", mon_hash_u64((1ull << p2) + (uint64_t)dlt, mon_hash_str(ck, 41))); }
+            uint64_t top = 0x7fffffffull - A;
+            for (uint64_t dlt = 0; dlt < 3; dlt++) if (FITS(top - dlt)) check_sizes(&c, ck, desc, top - dlt, 0);
+            for (int q = 0; q < (MO.thorough ? 64 : 12); q++) { uint64_t len = (1ull << 29) + rng_u64(&r) % (top - (1ull << 29)); if (!FITS(len)) continue; check_sizes(&c, ck, desc, len, 0); mon_distinct("nontrivial", mon_hash_u64(len, mon_hash_str(ck, 41))); }
+            mon_count("large_length_queries", 1);
+            mon_end();
+        }
         int destroyed = 0;
         if (mon_case_all("%s|destroy", ck)) { destroyed = liberasurecode_instance_destroy(desc) == 0; mon_end(); }
         /* queries on unknown / destroyed descriptors */
@@ -324,6 +336,18 @@ static void eval_mutant(mctx_t *mc, const uint8_t *h, const char *what)
     } else {
         mon_count("mutants_rejected_by_reference", 1);
         if (rc != -EBADHEADER) mon_viol("C09", rc == 0 ? "invalid-header-accepted" : "wrong-error", "%s: reference predicate rejects but get_fragment_metadata returned %d (want -EBADHEADER)", what, rc);
+    }
+    /* the same query with the fragment's own header as the output struct (the metadata sit at offset 0 of the fragment; the
+     * library's stripe check reads fragments through that type): same verdict, and a refused query - or an accepted one
+     * that has nothing new to say - leaves the fragment as it was */
+    if (mc->nmut % 3 == 0) {
+        uint8_t *g = malloc(s->flen); memcpy(g, before, s->flen);
+        int ri = liberasurecode_get_fragment_metadata((char *)g, (fragment_metadata_t *)g);
+        mon_count("evaluations", 1); mon_count("in_place_queries", 1);
+        if (ri != rc) mon_viol("C09", "in-place-query-differs", "%s: metadata query into the fragment's own header returned %d, into a separate struct %d", what, ri, rc);
+        else if (ri == 0 && ref_hdr_host_order(h) && md.chksum_mismatch == 0) g[REF_OFF_MISMATCH] = before[REF_OFF_MISMATCH];   /* the one member the query computes: the caller asked for it to be stored there */
+        if (ri == rc && (ri != 0 || (ref_hdr_host_order(h) && md.chksum_mismatch == 0)) && memcmp(g, before, s->flen)) mon_viol("C09", "validation-modified-fragment", "%s: fragment bytes changed by a metadata query (rc %d) whose output struct is the fragment's own header", what, ri);
+        free(g);
     }
     int hv = is_invalid_fragment_header((fragment_header_t *)f);
     mon_count("evaluations", 1);
@@ -775,6 +799,11 @@ static void run_checksum(void)
         }
     }
     set_legacy(0);
+    /* instances with different checksum types (and twins) come and go in every order; each live one is used after every
+     * step: fragments equal the model (checksum type and value included) and payload damage is flagged */
+    { noise_stop();
+      static const cfg_t p[] = { { EC_BACKEND_LIBERASURECODE_RS_VAND, 4, 2, 2, 0, CHKSUM_CRC32 }, { EC_BACKEND_LIBERASURECODE_RS_VAND, 4, 2, 2, 0, CHKSUM_NONE }, { EC_BACKEND_FLAT_XOR_HD, 10, 5, 3, 0, CHKSUM_CRC32 }, { EC_BACKEND_FLAT_XOR_HD, 5, 5, 3, 0, CHKSUM_NONE } };
+      lec_population(p, 4, "mixed-checksum-types", MO.thorough ? 6 : 5, MO.thorough ? 300 : 24, MO.thorough ? 48 : 28); }
 }
 
 /* ================================================================ C11 */
@@ -810,7 +839,7 @@ static void run_endian(void)
                         if (!mon_case("%s|legacy=%d|len=%llu|frag=%d|twin", x.ck, lm >= 3, (unsigned long long)s->len, f)) continue;
                         rng_t r; rng_case(&r);
                         uint8_t *nat = malloc(s->flen), *tw = malloc(s->flen);
-                        for (int v = 0; v < 9; v++) {
+                        for (int v = 0; v < 10; v++) {
                             memcpy(nat, s->frag[f], s->flen);
                             const char *vn = "pristine";
                             if (v == 6 || v == 7) {   /* 64-bit original length with high bits / bit 31 / bit 63 set (the query only reports it) */
@@ -822,6 +851,14 @@ static void run_endian(void)
                                 if (ct == CHKSUM_CRC32) continue;
                                 ref_put32(nat + REF_OFF_SIZE, (uint32_t)rng_u64(&r) | ((f & 1) ? 0x80000000u : 0)); ref_put32(nat + REF_OFF_BMS, (uint32_t)rng_u64(&r) | ((f & 2) ? 0x80000000u : 0));
                                 ref_hdr_reseal(nat, 0); vn = "size and backend-metadata size edited, re-sealed";
+                            }
+                            if (v == 9) {   /* a writer older than 1.2.0 (no seal) and sizes at and above 2^27 / 2^30 / 2^31, the object spanning 1..k such fragments */
+                                if (ct == CHKSUM_CRC32) continue;
+                                static const uint32_t szv[] = { 1u << 27, (1u << 27) + 4096, 0x09000000u, 1u << 30, 0xC0000000u, 0x0A000000u, 0xffffffffu, (1u << 27) - 16 };
+                                static const uint32_t vers[] = { 0x010000, 0x010001, 0x010100, 0x010109, 0x000903, 0x0101ff };
+                                uint32_t sz = szv[(f + si + ci) % 8];
+                                ref_put32(nat + REF_OFF_SIZE, sz); ref_put32(nat + REF_OFF_BMS, 0); ref_put64(nat + REF_OFF_ORIG, (uint64_t)sz * (1 + rng_below(&r, (uint32_t)c.k)) - rng_below(&r, 1000));
+                                ref_put32(nat + REF_OFF_LIBVER, vers[(f + ci) % 6]); vn = "writer older than 1.2.0, size at or above 2^27 (edited)";
                             }
                             if (v == 1 && P) { nat[80 + rng_below(&r, (uint32_t)P)] ^= (uint8_t)(1u << rng_below(&r, 8)); vn = "payload bit flipped"; }
                             if (v == 2) { ref_put32(nat + REF_OFF_IDX, (uint32_t)rng_u64(&r)); ref_hdr_reseal(nat, lm >= 3); vn = "idx edited, re-sealed"; }
